@@ -80,6 +80,23 @@ CHECKS = {
             rapid("random", "TestC04Random", {"checks": 50000, "shards": 4}, {"checks": 600000, "shards": 16, "timeout": 6000}),
         ],
     },
+    "C05": {
+        "cli": True,
+        "technique": "rapid random generation of boundary pairs, metamorphic oracle len(Diff)==0 <=> Equals; differential CLI exit status vs library Equals",
+        "level_text": "The biconditional is evaluated on generated pairs that are rich in 'equal under the reading but textually different' cases "
+                      "(permutations, duplications, numbers within eps) and in near misses, under list, set, mset, setkeys, the three merge "
+                      "combinations and Precision; both jd binaries are run on generated files (JSON and YAML) and their exit status is compared "
+                      "with Equals under the translated flags. Exploration over sampled pairs.",
+        "level_note": "Equals is taken as given (C04 decides it). CLI cases whose diff cannot be rendered in the requested format (status 2) are skipped and counted.",
+        "rule": "library leg: C04's boundary-pair generator (65%) and C01's pair generator (35%) x {list, set, mset, setkeys:id, merge, set+merge, mset+merge, prec:eps}; "
+                "both a.Diff(b) and b.Diff(a) are compared with Equals. cli leg: the same pairs written to files, binary in {v2/jd, top-level}, flags translated from the "
+                "option set plus -f jd|patch, -color, -yaml. Non-trivial: texts differ (both 'equal' and 'unequal' classes are counted separately); distinct by the full case.",
+        "assumptions": ["flag -> option translation as documented in the README usage text"],
+        "legs": [
+            rapid("library", "TestC05Library", {"checks": 50000, "shards": 4}, {"checks": 500000, "shards": 16, "timeout": 6000}),
+            rapid("cli", "TestC05CLI", {"checks": 200, "shards": 6, "shrinktime": "10s"}, {"checks": 2500, "shards": 16, "timeout": 6000}),
+        ],
+    },
     "C06": {
         "technique": "exhaustive enumeration of small array pairs + rapid random generation, oracle = independent LCS optimum and reference hunk interpreter",
         "level_text": "Every ordered pair of arrays over a small alphabet up to a length bound is enumerated (complete for that universe) and "
